@@ -295,6 +295,22 @@ Definition dispatch_codecs (op : Z) (args : list tok) : value :=
     | Some d => VList (h265_unmarshal_seq d ps)
     | None => VBad
     end
+  | 1406, [donl; skip; TList calls] =>
+    (* calls given as unit lists with their start-code lengths: build the Annex-B streams, then as 1401 *)
+    let unit_bytes (u : tok) : option (list Z) :=
+      match u with
+      | TList [TInt sc; TBytes n] => Some ((if sc =? 3 then [0; 0; 1] else [0; 0; 0; 1]) ++ n)
+      | _ => None
+      end in
+    let call_tok (c : tok) : option tok :=
+      match c with
+      | TList [TInt mtu; TList us] => option_map (fun bs => TList [TInt mtu; TBytes (concat bs)]) (opt_map unit_bytes us)
+      | _ => None
+      end in
+    match t_bool donl, t_bool skip, opt_map call_tok calls with
+    | Some d, Some sk, Some cs => VList (h265_history (mkH265Pay d sk 0) cs)
+    | _, _, _ => VBad
+    end
   | 1405, [donl; f] =>
     (* the Spec/Rfc7798.v encoder run on the form, then the parser model on its bytes *)
     match t_bool donl, t_form f with
